@@ -12,6 +12,17 @@ from .abstract import Prior
 NameValue = Tuple[str, Union[Prior, float]]
 
 
+def _position_key(name: str):
+    """
+    Order members of a tuple by the integer suffix of their name so that
+    name_2 comes before name_10.
+    """
+    prefix, _, suffix = name.rpartition("_")
+    if suffix.isdigit():
+        return prefix, int(suffix)
+    return name, -1
+
+
 class TuplePrior(ModelObject):
     """
     A prior comprising one or more priors in a tuple
@@ -56,7 +67,7 @@ class TuplePrior(ModelObject):
                     lambda t: isinstance(t[1], float) and t[0] != "id",
                     self.__dict__.items(),
                 ),
-                key=lambda tup: tup[0],
+                key=lambda tup: _position_key(tup[0]),
             )
         )
 
@@ -82,7 +93,8 @@ class TuplePrior(ModelObject):
             map(
                 convert,
                 sorted(
-                    self.prior_tuples + self.instance_tuples, key=lambda tup: tup.name
+                    self.prior_tuples + self.instance_tuples,
+                    key=lambda tup: _position_key(tup.name),
                 ),
             )
         )
@@ -114,7 +126,10 @@ class TuplePrior(ModelObject):
 
         This means they are in the order they should be in the tuple.
         """
-        return sorted(self.prior_tuples + self.instance_tuples, key=lambda t: t[0])
+        return sorted(
+            self.prior_tuples + self.instance_tuples,
+            key=lambda t: _position_key(t[0]),
+        )
 
     def _with_paths(self, tree: Dict[str, dict]) -> "TuplePrior":
         """
